@@ -6,7 +6,7 @@ from ..chanprop import ChanSpec
 class C09(ChanSpec):
     id = "C09"
     design_ref = "DESIGN.md §6 C09 (Wire LTS)"
-    budgets = dict(quick=(80, 8, 8, 2, 250), thorough=(1500, 30, 60, 3, 2500))
+    budgets = dict(quick=(80, 8, 8, 2, 250), thorough=(500, 20, 30, 3, 1500))
     technique = ("Lean 4 proof (invariant of a message-lock transition system: the wire is a sequence of whole messages plus a prefix of the lock holder's message) with executions of the "
                  "real pipeline and channel under a cooperative scheduler, compared with the model run in the observed lock order")
     level_text = ("Lean 4 theorems over a transition system in which any number of goroutines write messages given as arbitrary lists of low-level writes (one for []byte, [][]byte and "
